@@ -154,6 +154,11 @@ pub enum WInKind {
     /// somebody else's inputs (no utxo entry, never signed): native segwit / legacy
     ForeignP2wpkh,
     ForeignP2pkh,
+    /// somebody else's legacy (p2pkh) output which the PSBT describes by a `witness_utxo` alone
+    /// that claims a p2wpkh script for the same key: a node the signer does not trust can say so,
+    /// and only the previous transaction (which it withholds) could show otherwise.  The input
+    /// is not segwit, so a transaction with it must not fund a channel.
+    ForeignMisdescribed,
 }
 
 /// Which previous-output data the PSBT input carries.
@@ -236,7 +241,7 @@ fn wire_strat() -> impl Strategy<Value = WireGen> {
         any::<bool>(),
     )
         .prop_map(|(mut v, data, val, first)| {
-            let g = WInGen { kind: WInKind::ForeignP2pkh, data, val };
+            let g = if data == UtxoData::WitnessOnly && !first { WInGen { kind: WInKind::ForeignMisdescribed, data, val } } else { WInGen { kind: WInKind::ForeignP2pkh, data, val } };
             if first {
                 v.insert(0, g);
             } else {
@@ -590,7 +595,7 @@ impl C08 {
                 WInKind::WalletP2sh => (wallet_scripts(keyindex)[1].clone(), Expect::Wpkh { pk: wpk(keyindex), nested: true }, true, Some(wallet_scripts(keyindex)[0].clone())),
                 WInKind::WalletP2tr => (wallet_scripts(keyindex)[2].clone(), Expect::Tr { internal: wpk(keyindex) }, true, None),
                 WInKind::ForeignP2wpkh => (Address::p2wpkh(&foreign_pk(0x60 + i as u8), net).script_pubkey(), Expect::Foreign, true, None),
-                WInKind::ForeignP2pkh => (Address::p2pkh(&foreign_pk(0x60 + i as u8), net).script_pubkey(), Expect::Foreign, false, None),
+                WInKind::ForeignP2pkh | WInKind::ForeignMisdescribed => (Address::p2pkh(&foreign_pk(0x60 + i as u8), net).script_pubkey(), Expect::Foreign, false, None),
                 WInKind::CloseToRemote { anchors } | WInKind::CloseDelayed { anchors } => {
                     // a channel of this node that was closed unilaterally
                     let mut spec = ChanSpec::basic(50 + i as u64);
@@ -649,7 +654,7 @@ impl C08 {
                 input: vec![TxIn { previous_output: OutPoint { txid: Txid::from_byte_array(ptxid), vout: 0 }, script_sig: ScriptBuf::new(), sequence: Sequence::MAX, witness: Witness::new() }],
                 output: pouts,
             };
-            let is_ours = !matches!(g.kind, WInKind::ForeignP2wpkh | WInKind::ForeignP2pkh);
+            let is_ours = !matches!(g.kind, WInKind::ForeignP2wpkh | WInKind::ForeignP2pkh | WInKind::ForeignMisdescribed);
             let utxo = if is_ours {
                 Some(Utxo {
                     txid: prev_tx.compute_txid(),
@@ -822,8 +827,12 @@ impl C08 {
         for (i, f) in ins.iter().enumerate() {
             // (somebody else's legacy input described by witness_utxo alone is sloppy but is what the
             // handler asks for: it reads witness_utxo of every input)
-            let data = wg.inputs[i].data.clone();
-            if data != UtxoData::NonWitnessOnly {
+            let mut data = wg.inputs[i].data.clone();
+            if wg.inputs[i].kind == WInKind::ForeignMisdescribed {
+                // the claim: same value, a p2wpkh script; the previous transaction is withheld
+                data = UtxoData::WitnessOnly;
+                psbt.inputs[i].witness_utxo = Some(TxOut { value: prev_outs[i].value, script_pubkey: Address::p2wpkh(&foreign_pk(0x60 + i as u8), net).script_pubkey() });
+            } else if data != UtxoData::NonWitnessOnly {
                 psbt.inputs[i].witness_utxo = Some(prev_outs[i].clone());
             }
             if data != UtxoData::WitnessOnly {
@@ -969,6 +978,7 @@ fn in_kind_name(k: &WInKind) -> &'static str {
         WInKind::CloseDelayed { .. } => "close-delayed",
         WInKind::ForeignP2wpkh => "foreign-p2wpkh",
         WInKind::ForeignP2pkh => "foreign-p2pkh",
+        WInKind::ForeignMisdescribed => "foreign-p2pkh-claimed-p2wpkh",
     }
 }
 
